@@ -79,7 +79,7 @@ PassStreams ==
     \cup {<<"v6", Oct3(v) \o Oct3(w)>> : v \in {1000000, 1048575, 16777215, 999999}, w \in {0, 999999, 1000000, 16777215}}
     \cup {<<"const", [i \in 1..n |-> c]>> : n \in {0, 3, 4, 8, 16, 64}, c \in {0, 255}}
     \cup {<<"rnd", RndSeq(Seed * 1000 + 500 + i, 3)>> : i \in 1..NPassRnd}
-    \cup (IF PassGrid THEN {<<"grid", <<b0, b1, b2>> >> : b0 \in {0, 63, 64, 255}, b1 \in {0, 65, 66, 67, 255}, b2 \in 0..255} ELSE {})
+    \cup (IF PassGrid THEN {<<"grid", <<b0, b1, b2>> >> : b0 \in {0, 63, 64, 255}, b1 \in {0, 1, 15, 16, 64, 65, 66, 67, 68, 127, 128, 200, 240, 241, 254, 255}, b2 \in 0..255} ELSE {})
 PassCalls == {[f |-> "passkey", a |-> <<Seed + 1>> \o <<Len(s[2])>> \o s[2], tag |-> <<s[1]>>] : s \in PassStreams}
 
 CONSTANT Which      \* "pure" (C37) or "passkey" (C38)
